@@ -27,7 +27,7 @@ import (
 //     runs, onExit runs last; a handler that cannot be set up does not change the outcome.
 
 type ioFaultCfg struct {
-	Classes []string `json:"classes"` // log-open log-write log-sync script-write handler-open
+	Classes []string `json:"classes"` // log-open log-write log-sync script-write handler-open pipe-open
 	Den     int      `json:"den"`     // one in Den eligible operations fails
 }
 
@@ -35,13 +35,13 @@ var handlerLogName = map[string]string{"onExit": "on_exit", "onSuccess": "on_suc
 
 func drawIOFaultCfg(tp *simrt.Tape) *ioFaultCfg {
 	c := &ioFaultCfg{Den: pick(tp, 2, 4, 8, 20)}
-	for _, k := range []string{"log-open", "log-write", "log-sync", "script-write", "handler-open"} {
+	for _, k := range []string{"log-open", "log-write", "log-sync", "script-write", "handler-open", "pipe-open"} {
 		if chance(tp, 1, 2) {
 			c.Classes = append(c.Classes, k)
 		}
 	}
 	if len(c.Classes) == 0 {
-		c.Classes = []string{pick(tp, "log-open", "log-write", "log-sync", "script-write", "handler-open")}
+		c.Classes = []string{pick(tp, "log-open", "log-write", "log-sync", "script-write", "handler-open", "pipe-open")}
 	}
 	return c
 }
@@ -80,6 +80,12 @@ func ioFaultPlan(tp *simrt.Tape, fc *ioFaultCfg, agentPid func() int) (func(op *
 			case "fsync":
 				class = "log-sync"
 			}
+		case op.Kind == "pipe":
+			// the pipe of a step that captures its output (created when the step's executor is set up)
+			name = gStep[op.G.ID]
+			if name != "" {
+				class = "pipe-open"
+			}
 		case strings.Contains(base, "blackdagger_script-"):
 			name = gStep[op.G.ID]
 			if op.Kind == "write" {
@@ -95,6 +101,8 @@ func ioFaultPlan(tp *simrt.Tape, fc *ioFaultCfg, agentPid func() int) (func(op *
 		touched[name] = true
 		errno := syscall.ENOSPC
 		switch class {
+		case "pipe-open":
+			errno = syscall.EMFILE
 		case "log-open", "handler-open":
 			errno = pick2(tp, syscall.EMFILE, syscall.ENOSPC)
 		case "log-sync":
@@ -243,6 +251,25 @@ func (c *stepCheck) checkIOFault(hung bool) {
 			if blocking {
 				c.viol("C02", "blocked-step-executed", "iofault/"+label[dn]+"-dependency/"+tag(dn), "step %s was executed %d times although its dependency %s is finally %q (continueOn failure=%v skipped=%v; executions of the dependency %d, last one succeeded: %v)", st.Name, len(runsBy[st.Name]), dn, label[dn], dep.ContFail, dep.ContSkip, len(runsBy[dn]), lastOK(dn))
 			}
+		}
+	}
+
+	// ... and a step all of whose dependencies finally let it proceed has been executed (unless its own
+	// files met an error, or its own precondition is unmet)
+	for i := range d.Steps {
+		st := &d.Steps[i]
+		if len(runsBy[st.Name]) > 0 || isTouched(st.Name) || st.Precond == 2 || label[st.Name] == "skipped" {
+			continue
+		}
+		allPermit := true
+		for _, dn := range st.Depends {
+			dep := d.Step(dn)
+			if !(label[dn] == "finished" || (label[dn] == "failed" && dep.ContFail) || (label[dn] == "skipped" && dep.ContSkip)) {
+				allPermit = false
+			}
+		}
+		if allPermit {
+			c.viol("C02", "runnable-not-executed", "iofault/"+label[st.Name], "every dependency of step %s finally lets it proceed and none of its own files met an error, but it was never executed (reported %q)", st.Name, label[st.Name])
 		}
 	}
 
